@@ -300,6 +300,8 @@ Proof.
     set (inc := if first then Some [] else incoming (sr (nd S1))). clearbody inc.
     destruct inc as [ps|]; [|apply Hq; reflexivity].
     destruct last; [|cbn [andb]; apply Hq; reflexivity].
+    destruct (snap_ahead (assemble_snap (ps ++ [(bl, off, len)])) (applied (nd S1))) eqn:Eah;
+      [|cbn [andb]; apply Hq; reflexivity].
     cbn [andb].
     set (B := assemble_snap (ps ++ [(bl, off, len)])).
     set (S1b := upd (fun n0 => n0 <| sr := (sr n0) <| stored := Some B |> <| incoming := None |> |>) S1).
